@@ -242,6 +242,29 @@ theorem c13_value_rereads_last {mode : Bool} {sc : List Act} {s : State} (h : Re
   | none => exact absurd hr h1
   | some v => exact ⟨v, by simp [readVal, hfl.2, hr], by rw [h2, hr]; rfl⟩
 
+/-- what a synchronous access returns is what was logged: when `bool(next())` (or `begin()` / `++it`) returns `b`, exactly one
+item was appended to `seen`; `b` is true iff that item is not the end marker, and then `value()` reads that very item -/
+theorem c13_sync_result_logged (s : State) (b : Bool) (hr : (step s .syncEnd).2 = .next b) :
+    ∃ i, (step s .syncEnd).1.seen = s.seen ++ [i] ∧ (b = true ↔ i ≠ Item.fin) ∧ (b = true → i = readVal s) := by
+  have hrv : readVal s ≠ Item.fin := by
+    unfold readVal; split
+    · simp
+    · split <;> simp
+  simp only [step, stepSyncEnd] at hr ⊢
+  cases hc : s.cons with
+  | idle => simp [hc] at hr
+  | parked => simp [hc] at hr
+  | inSync kind =>
+      simp only [hc] at hr ⊢
+      cases hb : s.block with
+      | false => simp [hb] at hr
+      | true =>
+          simp only [hb, if_true] at hr ⊢
+          refine ⟨cur s, ?_, ?_, ?_⟩
+          · cases kind <;> rfl
+          · cases kind <;> simp [endSync] at hr <;> (cases b <;> simp [cur, hr, hrv])
+          · cases kind <;> simp [endSync] at hr <;> (cases b <;> simp [cur, hr])
+
 /-- **Locals destroyed exactly once.** At any time every guard constructed by the body is either still in scope or was
 destroyed exactly once — never twice, never lost; a finished body has none in scope. -/
 theorem c13_guards_once {mode : Bool} {sc : List Act} {s : State} (h : Reachable mode sc s) (g : Nat) :
